@@ -944,8 +944,8 @@ pub fn run_r(line: &str) -> Result<String, String> {
 			}
 			if yields.last().map(|s| s.as_str()) != Some("eof") {
 				let n = yields.len();
-				if kind == "flip" && n >= 100 && yields[n - 100..].iter().all(|y| y == "e custom") {
-					return Ok("judged # VIOLATION D27-shape corrupted object count: one datum error per claimed object, no end of stream within 400 calls".into());
+				if kind == "flip" && n >= 100 && yields[n - 100..].iter().all(|y| *y == yields[n - 1]) {
+					return Ok("judged # VIOLATION D27-shape corrupted object count: one datum error (or one zero-size value) per claimed object, no end of stream within 400 calls".into());
 				}
 				return Ok("judged # VIOLATION the reader does not reach end of stream".into());
 			}
